@@ -1,4 +1,4 @@
-"""Engine E3: preemption-bounded interleaving of two real threads over the real code.
+"""Engine E5: preemption-bounded interleaving of two real threads over the real code.
 
 yabgp runs its encoders in several threads at once: the REST interface is a WSGI resource on the reactor's thread pool, and
 BGP.send_update / construct_update_to_bin call Update.construct in the worker thread (only the write goes through
